@@ -428,6 +428,7 @@ func runServer(c *fw.Ctx) {
 	// process of its own (a crash there is observed, not suffered)
 	if !race {
 		runDiscReasonLattice(c)
+		runHelloNames(c)
 	}
 
 	// ---- after the attack -----------------------------------------------------------
